@@ -8,7 +8,7 @@ EXPLANATION = ("For gix-commitgraph: signature, chunk ids, fan/entry sizes, NO_P
                "const-evaluated and compared with git's commit-graph-format; NO_PARENT is tested by equality and the edge masks by `&` in the edge "
                "decoders, which build None / ExtraEdgeIndex / GraphPosition resp. Last / Internal on the right edges; the commit-data decoder shifts the "
                "generation by 2 and masks the 34-bit timestamp with 0x3ffffffff; every chunk id is looked up by the reader. Equality of the decoded "
-               "data with the underlying commits is not decided. The fan-out bisection of File::lookup_inner starts its lower bound at the constant 0 for first byte 0.")
+               "data with the underlying commits is not decided. The fan-out bisection of File::lookup_inner starts its lower bound at the constant 0 for first byte 0 (and no fan read at byte-1 is unguarded in the crate). A chain-wide graph::Position is related to one file's commit count only inside Graph's translation (unit rule with positive control).")
 P = "gix_commitgraph::"
 SPEC_INT = {"file::FAN_LEN": 256, "file::HEADER_LEN": 8, "file::COMMIT_DATA_ENTRY_SIZE_SANS_HASH": 16, "file::NO_PARENT": 0x70000000,
             "file::EXTENDED_EDGES_MASK": 0x80000000, "file::LAST_EXTENDED_EDGE_MASK": 0x80000000,
